@@ -180,7 +180,7 @@ def gen_score_profile(rng, L, k, n, *, max_ballots=8, rational=True):
 TIEBREAKS = [None, "random", "borda", "first_place"]
 
 
-def gen_rule_case(rng, rules=ALL_RULES, *, max_c=6, tiebreaks=TIEBREAKS, tie_bias=0.0):
+def gen_rule_case(rng, rules=ALL_RULES, *, max_c=6, tiebreaks=TIEBREAKS, tie_bias=0.0, pairwise_ties=False):
     """-> case dict {rule, kw, profile, shape}.  Only configurations the rule documents."""
     rule = rng.choice(list(rules))
     cfg = {}
@@ -201,6 +201,8 @@ def gen_rule_case(rng, rules=ALL_RULES, *, max_c=6, tiebreaks=TIEBREAKS, tie_bia
     if rule in ("DominatingSets", "CondoBorda"):
         max_c = min(max_c, 6)  # ballot_fill enumerates every permutation of the unlisted candidates: keep the cost bounded
     allow_ties = rule in ("Plurality", "SNTV", "Borda", "RandomDictator", "BoostedRandomDictator") and rng.random() < 0.5
+    if pairwise_ties and rule in ("DominatingSets", "CondoBorda"):
+        allow_ties = rng.random() < 0.5  # tied positions are accepted by the pairwise rules (a tie = no preference)
     if rule == "PluralityVeto":
         allow_ties = rng.random() < 0.3
     int_w = rule == "PluralityVeto"
